@@ -656,7 +656,108 @@ func r03HalfOpenTables(c *core.Ctx) {
 		okc := guard != nil && seen["x<0"] && seen["y<0"] && seen["x>size-1"] && seen["y>size-1"] && returnsErrorValue(info, guard.Body)
 		c.Check(R, "insert-rejects-all-four-sides/pointindex.PointIndex.InsertCoord", ic.Decl.Pos(), okc, "rejects < 0 and > size-1 on both axes with an error", fmt.Sprintf("InsertCoord's range check covers only %v", keys(seen)))
 	}
+	// (vii) lineIntersects applies the ownership exceptions to border touches
+	r03LineIntersectsExceptions(c, li)
 	c.Floor(R, 9)
+}
+
+// r03LineIntersectsExceptions: the segment/pixel test must (1) return true when an endpoint is inside,
+// (2) ignore an intersection on an exclusive edge when it is the segment's own tip, (3) ignore an intersection on
+// an inclusive edge when the tip sits on that edge's exclusive (unowned) end, (4) count an overlap with an inclusive
+// edge.  Each exception is located by the facts that guard it, not by its text.
+func r03LineIntersectsExceptions(c *core.Ctx, li *core.Func) {
+	const R = "R03"
+	info := li.Pkg.TypesInfo
+	var loop *ast.RangeStmt
+	ast.Inspect(li.Decl.Body, func(n ast.Node) bool {
+		if r, ok := n.(*ast.RangeStmt); ok && loop == nil && len(core.CallsIn(info, r.X, "intgeom.Extent.Edges")) == 1 {
+			loop = r
+		}
+		return loop == nil
+	})
+	if loop == nil {
+		c.Bad(R, "edge-loop/"+li.Name, li.Decl.Pos(), "lineIntersects no longer ranges over the extent's edges")
+		return
+	}
+	edgeI := canon(loop.Key)
+	// the intersection test of this iteration
+	var interVar, interPt string
+	for _, s := range loop.Body.List {
+		if as, ok := s.(*ast.AssignStmt); ok && len(as.Lhs) == 2 && len(as.Rhs) == 1 {
+			if call, ok := as.Rhs[0].(*ast.CallExpr); ok && core.IsCallTo(info, call, "intgeom.SegmentIntersect") {
+				interPt, interVar = canon(as.Lhs[0]), canon(as.Lhs[1])
+			}
+		}
+	}
+	if interVar == "" {
+		c.Bad(R, "edge-loop/"+li.Name, loop.Pos(), "no intgeom.SegmentIntersect call per edge")
+		return
+	}
+	excl := "isExclusiveEdge(" + edgeI + ")"
+	found := map[string]bool{}
+	core.InspectNoLit(loop.Body, func(n ast.Node) bool {
+		switch s := n.(type) {
+		case *ast.BranchStmt:
+			if s.Tok != token.CONTINUE {
+				return true
+			}
+			facts := enclosingFacts(loop.Body, s)
+			// innermost condition
+			var inner ast.Expr
+			for _, pn := range pathTo(loop.Body, s) {
+				if is, ok := pn.(*ast.IfStmt); ok {
+					inner = is.Cond
+				}
+			}
+			ic := canon(inner)
+			switch {
+			case hasFact(facts, interVar, true) && hasFact(facts, excl, true) && strings.Count(ic, "=="+interPt) == 2 && strings.Contains(ic, "||"):
+				found["skip-own-tip-on-exclusive-edge"] = true
+			case hasFact(facts, interVar, true) && hasFact(facts, excl, false) && strings.Count(ic, "==") == 2 && strings.Contains(ic, "||"):
+				// the compared point must be getExclusiveTip(edgeI, edge)
+				okTip := false
+				for _, pn := range pathTo(loop.Body, s) {
+					if blk, ok := pn.(*ast.BlockStmt); ok {
+						for _, st := range blk.List {
+							if as, ok := st.(*ast.AssignStmt); ok && len(as.Rhs) == 1 {
+								if call, ok := as.Rhs[0].(*ast.CallExpr); ok && core.IsCallTo(info, call, "pointindex.getExclusiveTip") && strings.Count(ic, "=="+canon(as.Lhs[0])) == 2 {
+									okTip = true
+								}
+							}
+						}
+					}
+				}
+				if okTip {
+					found["skip-tip-on-exclusive-end-of-inclusive-edge"] = true
+				}
+			}
+		case *ast.ReturnStmt:
+			if len(s.Results) != 1 || canon(s.Results[0]) != "true" {
+				return true
+			}
+			facts := enclosingFacts(loop.Body, s)
+			switch {
+			case hasFact(facts, interVar, true):
+				found["intersection-counts"] = true
+			case hasFact(facts, excl, false):
+				for _, f := range facts {
+					if strings.HasPrefix(f.expr, "lineOverlapsInclusiveEdge(") && f.val {
+						found["overlap-with-inclusive-edge-counts"] = true
+					}
+				}
+			}
+		}
+		return true
+	})
+	// (1) endpoint inside => true, before the loop
+	src := canonNode(c.P, li.Decl.Body)
+	if len(core.CallsIn(info, li.Decl, "pointindex.containsPoint")) == 2 && strings.Index(src, "returntrue") < strings.Index(src, "for"+edgeI) {
+		found["endpoint-inside-counts"] = true
+	}
+	for _, k := range []string{"endpoint-inside-counts", "skip-own-tip-on-exclusive-edge", "skip-tip-on-exclusive-end-of-inclusive-edge", "intersection-counts", "overlap-with-inclusive-edge-counts"} {
+		c.Check(R, "segment-pixel-test/"+k+"/"+li.Name, loop.Pos(), found[k], "present and guarded by the ownership facts it belongs to",
+			"lineIntersects no longer applies the rule `"+k+"`: a segment that only touches a pixel at a border point the pixel does not own (or runs along an owned border) is attributed wrongly")
+	}
 }
 
 func returnsErrorValue(info *types.Info, b *ast.BlockStmt) bool {
